@@ -48,8 +48,9 @@ def plan(tier, seed):
         cfgs.append(dict(sched="WRR", table=tab, rate=8, flows=[0, 1], sizes=[1], N=7 if quick else 9, gaps=["S", 1], order=1))
     # every configuration once more with long fixed workloads (state that only breaks after hundreds of packets)
     nlong = explore.add_long(cfgs, 60 if quick else 120)
+    ndebug = explore.add_debug_variants(cfgs)      # the same with every element constructed with debug=True
     return {"cfgs": cfgs, "budget": None,
-            "bound": ("%d long fixed workloads (periodic arrival patterns); " % nlong) + ("DRR: N<=%d full menu (31/packet), N<=%d reduced, static backlogs of %d; RR/WRR: N<=%d full menu, bursts to %d" % (n, n + 1, 6 if quick else 8, n + 1, 7 if quick else 9))}
+            "bound": ("%d long fixed workloads (periodic arrival patterns); %d configurations repeated with debug=True; " % (nlong, ndebug)) + ("DRR: N<=%d full menu (31/packet), N<=%d reduced, static backlogs of %d; RR/WRR: N<=%d full menu, bursts to %d" % (n, n + 1, 6 if quick else 8, n + 1, 7 if quick else 9))}
 
 
 def execute(ch, cfg):
